@@ -15,6 +15,7 @@ search: the property restated on the implementation's outputs (python, below):
         model of its programs, no sanitizer report.
 """
 import json
+import os
 import math
 import re
 import struct
@@ -25,7 +26,7 @@ import prims_common as pc
 NV = 3
 # majority-vote teams are saved under the wta id on trees without the fix
 # "fix: a majority-vote team classifier is saved under the winner-takes-all id ..." (findings/C08.json)
-CHECK_MV_ROUNDTRIP = False
+CHECK_MV_ROUNDTRIP = os.environ.get("C08_MV_ROUNDTRIP", "0") == "1"
 WORD_RE = re.compile(r"^[A-Za-z_][A-Za-z_0-9]*$")
 
 
